@@ -44,9 +44,8 @@ Definition S_ (s a : nat) (r : Q) (ns na : nat) (c : bool) (p : nat) (d : list (
 Definition B_ (s : nat) : event Q := EStart s.
 Definition chk nS nA P R av ab ini g q0 al ep L evs ik iq ip tol :=
   @c10_check Q NumQ (mk_mdp nS nA P R av ab ini g) q0 al ep L evs ik iq ip tol.
-Definition dump nS nA P R av ab ini g q0 al ep L evs :=
-  let m := @mk_mdp Q NumQ nS nA P R av ab ini g in
-  table_dump m (train m (untab2 q0) al ep L evs).
+(* numbers leave Coq as (numerator, denominator) pairs: 8.16 prints dyadic Q values in hexadecimal notation *)
+Definition qz (x : Q) : bool * Z * Z := (Z.ltb (Qnum x) 0, Z.abs (Qnum x), Zpos (Qden x)).
 (* rows Q(ns, .) of the model's table just before each step (expected SARSA, temperature check) *)
 Fixpoint rows_before (m : mdp Q) al (qt : qtab Q) (evs : list (event Q)) : list (list Q) :=
   match evs with
@@ -55,7 +54,8 @@ Fixpoint rows_before (m : mdp Q) al (qt : qtab Q) (evs : list (event Q)) : list 
   | EStep e :: r => q_row m qt (st_ns e) :: rows_before m al (esarsag_step m al qt e) r
   end.
 Definition rowsb nS nA P R av ab ini g q0 al evs :=
-  let m := @mk_mdp Q NumQ nS nA P R av ab ini g in rows_before m al (q_empty m (untab2 q0)) evs.
+  let m := @mk_mdp Q NumQ nS nA P R av ab ini g in
+  map (map qz) (rows_before m al (q_empty m (untab2 q0)) evs).
 """
 
 CLAUSES = ["valid_experience", "chain_ok", "dq_picks_ok", "keys_same", "table_close", "policy_close"]
@@ -396,6 +396,7 @@ def run(ctx):
             ep, temp = float(F(case["eps"])), float(F(case["temp"]))
             for st, rowq in zip(steps, rb):
                 acts = case["mdp"]["actions"][st["ns"]]
+                rowq = [F(-nd[1] if nd[0] else nd[1], nd[2]) for nd in rowq]
                 xs = [float(x) / temp for x in rowq]
                 mx = max(xs)
                 ws = [math.exp(x - mx) for x in xs]
